@@ -243,7 +243,7 @@ func (l *irLoader) loadRuleGroup(group *ir.RuleGroup) error {
 		return nil // Skip this group
 	}
 	if _, ok := l.res.groups[l.group.Name]; ok {
-		panic(fmt.Sprintf("duplicated function %s after the typecheck", l.group.Name)) // Should never happen
+		return l.errorf(group.Line, nil, "redefinition of %s() inside one file", l.group.Name)
 	}
 	l.res.groups[l.group.Name] = l.group
 
